@@ -93,7 +93,7 @@ func HarnessBuild() {
 		verif.Assert("C08-holds-the-fetched-content", found)
 		m := bundle.RemotePackageMeta(src.Package())
 		wm := wMeta[k.node.pkg]
-		if wm != nil && wm.gitCommitID != "" {
+		if wm != nil {
 			verif.Assert("C08-metadata-unchanged", m != nil && *m == *wm)
 		}
 	}
